@@ -202,6 +202,13 @@ def run(ctx):
         ctx.mc("MultiKnee", "MC_MultiKnee_12", timeout=3000)
         ctx.mc("Rdp", "MC_Rdp_11", timeout=3000)
     ctx.mc("MultiKnee", "MC_MultiKnee_last", expect="PopBound")
+    # the machine refines the abstraction whose pop bound is proved for EVERY n (TLAPS, MultiKneeProof_proofs.tla);
+    # a detector that may return the last index is not a step of that abstraction (negative instance)
+    ctx.mc("MultiKneeRefines", "MC_MultiKneeRefines", need_actions=("PopSmall", "PopStraight", "PopDetect", "Finish"))
+    ctx.mc("MultiKneeRefines", "MC_MultiKneeRefines_neg", expect="AbsInv")
+    if not ctx.quick:
+        from harness import proofs
+        proofs.recheck(ctx, ["MultiKneeProof_proofs"])
     beh = ctx.gen("MultiKnee", "Gen_MultiKnee_quick" if ctx.quick else "Gen_MultiKnee_thorough")
     ctx.exhaustive = True
     res = par.pmap(_replay_line, beh)
